@@ -631,7 +631,7 @@ fn process_violation<W: World>(vr: &ViolationRun, count: u64, a: &CheckArgs, dir
         }
     };
     // final: fresh process
-    let name = format!("{}-{}-{}-{}.json", a.prop, min.violation.check.replace('.', "_"), a.seed, vr.run);
+    let name = format!("{}-{}-{}-{}-{:08x}.json", a.prop, min.violation.check.replace('.', "_"), a.seed, vr.run, fnv1a(vr.violation.signature().as_bytes()) as u32);
     let path = format!("{}/{}", replay_dir, name);
     let mut rf = mk_rf(&min.events, Some(min.violation.clone()), None);
     let (vs, co) = exec_in_child::<W>(&rf, &tmp, false);
@@ -812,6 +812,8 @@ pub fn report(meta: ReportMeta, legs: &[LegResult], total_wall: f64) -> i32 {
         "rule": meta.rule,
         "samples": samples,
         "runs_per_hour": (evals as f64 / wall * 3600.0) as u64,
+        "seeds": 1,
+        "seed_note": "one master seed (VERIF_SEED); every run draws from its own PRNG stream derived from (seed, world/property label, run index), so `evaluations` is also the number of distinct derived seeds executed",
         "events": events,
         "logical_steps": events,
         "simulated_time_note": "the system under test has no clock; simulated time = number of executed events (logical_steps)",
